@@ -48,8 +48,9 @@ package epubdoc
 
 // hrefs are IRIs relative to the package document: percent-decoded as a PATH (RFC 3986: '+' stays '+'; only %XX is
 // decoded) and resolved against the directory of the package file
+// (C19: a chapter whose href does not resolve is silently skipped - its text is then missing in every mode, None included)
 //@ func (*Reader) resolveHref results (res)
-//@   property C18
+//@   property C18, C19
 //@   flags readonly
 //@   ensures percent_decoded_path: !url.PathUnescape$1(old(href)) && len(r.baseDir) == 0 ==> sameseq(res, url.PathUnescape(old(href)))
 //@   ensures relative_to_package: !url.PathUnescape$1(old(href)) && len(r.baseDir) > 0 ==> sameseq(res, path.Join(r.baseDir, url.PathUnescape(old(href))))
@@ -72,7 +73,6 @@ package epubdoc
 // ---- C18: hrefs are resolved relative to the package file: the base is the DIRECTORY of the OPF path ("" at the root) ----
 //@ func parseOPF results (pkg, base, err)
 //@   property C18
-//@   flags nosafety
 //@   ensures base_is_the_directory_of_the_package_file: !err ==> base == (path.Dir(opfPath) == "." ? "" : path.Dir(opfPath))
 //@   ensures spine_is_not_empty: !err ==> !isnil(pkg) && len(pkg.Spine) > 0
 
@@ -80,7 +80,6 @@ package epubdoc
 // once, in resolveHref) ----
 //@ func convertManifest results (res)
 //@   property C18
-//@   flags nosafety
 //@   loop 0:
 //@     step item_recorded_as_declared: has(manifest, item.ID) && manifest[item.ID].ID == item.ID && manifest[item.ID].Href == item.Href && manifest[item.ID].MediaType == item.MediaType
 //@     step other_items_kept: forall k string :: {manifest[k]} k != item.ID && has(prev(manifest), k) ==> has(manifest, k) && manifest[k] == prev(manifest)[k]
@@ -108,7 +107,6 @@ package epubdoc
 // a valid mimetype member, and a refusal of the check is what init returns ----
 //@ func (*Reader) init results (err)
 //@   property C20
-//@   flags nosafety
 //@   count drm: checkForDRM(z) when true
 //@   ensures opened_only_after_the_drm_check: !err ==> drm == 1
 //@   callsite parseContainer(z) requires drm_checked_before_the_package_is_read: drm == 1
@@ -129,7 +127,6 @@ package epubdoc
 //@ spec func pkgRootfile(rf rootfile) bool = (rf.MediaType == "application/oebps-package+xml" || rf.MediaType == "") && rf.FullPath != ""
 //@ func parseContainer results (res, err)
 //@   property C18
-//@   flags nosafety
 //@   loop 1:
 //@     invariant no_earlier_rootfile_qualified: forall k int :: {container.Rootfiles.Rootfile[k]} 0 <= k && k < $i ==> !pkgRootfile(container.Rootfiles.Rootfile[k])
 //@   atreturn#5 returned_at_the_first_qualifying_rootfile: pkgRootfile(rf) && sameseq(rf.FullPath, container.Rootfiles.Rootfile[$i].FullPath)
